@@ -13,7 +13,7 @@ pub fn spec(tier: Tier) -> RunSpec {
 through a directory index and through the .html fallback, x Range values 'bytes=' + 1..6 specs (a-b, a-, -n) joined by ',' with optional blanks, every offset drawn from {0,1,L-2,L-1,L,L+1,2^63,u64::MAX,u64::MAX+1,20-digit junk, non-numeric, empty, random inside}, \
 plus malformed shapes (a-b-c, wrong unit, missing '=', '+5', blanks around '-'). Oracle M-RANGE (the harness parses the header per RFC 7233 itself): all specs valid and inside the file -> 206, per range in request order exactly file[a..=b], \
 Content-Range 'bytes a-b/L', single range Content-Length = b-a+1, several ranges one multipart/byteranges body; otherwise 416 or a 206 whose every part is self-consistent (label s-e/L with s<=e and bytes == file[s..=min(e,L-1)]). \
-Non-trivial = an offset within 1 of 0 or L, a suffix or open-ended spec, >= 2 specs, or an overflow candidate; distinct by (L, path kind, header).",
+Section ranges-binary: the same generator against the real release binary serving the same docroot over loopback (a quarter of the in-process volume). Non-trivial = an offset within 1 of 0 or L, a suffix or open-ended spec, >= 2 specs, or an overflow candidate; distinct by (L, path kind, header).",
         &["'valid' follows RFC 7233 ABNF: unit 'bytes', digits only, no blanks inside a spec; everything else is in the tolerant class"],
         if tier == Tier::Quick { 900 } else { 14400 },
     )
@@ -32,7 +32,9 @@ pub fn byte_at(i: u64) -> u8 {
 pub fn file_content(len: u64) -> Vec<u8> { (0..len).map(byte_at).collect() }
 
 #[derive(Clone, Debug, Serialize, Deserialize)]
-pub struct Case { pub len: u64, pub via: u8, pub header_name: String, pub value: String }
+pub struct Case { pub len: u64, pub via: u8, pub header_name: String, pub value: String,
+    /// sent to the real binary over loopback instead of Server::process on the mock transport
+    #[serde(default)] pub binary: bool }
 
 fn offset(l: u64) -> impl Strategy<Value = String> {
     let l1 = l as u128;
@@ -63,7 +65,7 @@ fn case_strategy(lengths: Vec<u64>) -> impl Strategy<Value = Case> {
         let sep = prop::sample::select(vec![",", ", ", " ,", " , ", ",\t"]);
         let unit = prop_oneof![12 => Just("bytes="), 1 => prop::sample::select(vec!["bytes =", "byte=", "", "bytes", "BYTES=", "bytes==", "items=", "bytes= "])];
         (Just(l), 0u8..4, prop::sample::select(vec!["Range", "Range", "Range", "range", "RANGE"]), specs, sep, unit)
-            .prop_map(|(len, via, h, specs, sep, unit)| Case { len, via, header_name: h.to_string(), value: format!("{}{}", unit, specs.join(sep)) })
+            .prop_map(|(len, via, h, specs, sep, unit)| Case { len, via, header_name: h.to_string(), value: format!("{}{}", unit, specs.join(sep)), binary: false })
     })
 }
 
@@ -111,9 +113,10 @@ pub fn eval(ctx: &Ctx, c: &Case) -> Verdict {
     let file = file_content(l);
     let path = path_for(l, c.via);
     let req = format!("GET {} HTTP/1.1\r\nHost: localhost\r\n{}: {}\r\n\r\n", path, c.header_name, c.value);
-    let o = inproc::serve(req.as_bytes(), Transport::default(), 10000, AppKind::Real, Entry::Process);
+    let o = inproc::serve_routed(req.as_bytes(), c.binary, Entry::Process);
     let mut problems: Vec<(String, String)> = vec![];
     let mut classes: Vec<&'static str> = vec![];
+    if c.binary { classes.push("served-by-the-real-binary"); }
     let ctxt = format!("L={} GET {} {}: {}", l, path, c.header_name, c.value);
     if let Err((m, loc)) = &o.result { return Verdict::fail(format!("panic:{}:{}", super::common::panic_module(loc), m), format!("panic at {}; {}", loc, ctxt)); }
     let resp = match mhttp::parse(&o.out) { Ok(r) => r, Err(p) => return Verdict::fail(format!("unparseable-response:{}", p.sig), ctxt) };
@@ -214,7 +217,17 @@ pub fn run(ctx: &Ctx) {
     crate::fw::inproc::init_env();
     let ls = lengths(ctx.tier);
     let root = match build_docroot(&ls) { Ok(r) => r, Err(e) => { ctx.inconclusive(&format!("docroot: {}", e)); return; } };
-    ctx.prop("ranges", ctx.share(ctx.scale(48_000, 3_000_000)), case_strategy(ls), |c| eval(ctx, c));
+    ctx.prop("ranges", ctx.share(ctx.scale(48_000, 3_000_000)), case_strategy(ls.clone()), |c| eval(ctx, c));
+    // the same generator against the real binary (TcpStream, accept loop, pool) serving the same docroot
+    match inproc::binary_start(&root) {
+        Err(e) => ctx.inconclusive(&format!("real binary did not start: {}", e)),
+        Ok(()) => {
+            use proptest::prelude::*;
+            ctx.prop("ranges-binary", ctx.share(ctx.scale(12_000, 400_000)), case_strategy(ls).prop_map(|mut c| { c.binary = true; c }), |c| eval(ctx, c));
+            inproc::binary_stop();
+            for t in inproc::binary_trouble() { ctx.inconclusive(&format!("exchange with the real binary did not complete: {}", t)); }
+        }
+    }
     let _ = std::env::set_current_dir("/");
     let _ = std::fs::remove_dir_all(root);
 }
@@ -222,7 +235,7 @@ pub fn run(ctx: &Ctx) {
 pub fn replay(ctx: &Ctx, _section: &str, case: &Value) -> Verdict {
     crate::fw::inproc::init_env();
     match serde_json::from_value::<Case>(case.clone()) {
-        Ok(c) => { let root = match build_docroot(&[c.len]) { Ok(r) => r, Err(e) => return Verdict::fail("replay-docroot-failed", e.to_string()) }; let v = eval(ctx, &c); let _ = std::env::set_current_dir("/"); let _ = std::fs::remove_dir_all(root); v }
+        Ok(c) => { let root = match build_docroot(&[c.len]) { Ok(r) => r, Err(e) => return Verdict::fail("replay-docroot-failed", e.to_string()) }; if c.binary { if let Err(e) = inproc::binary_start(&root) { return Verdict::fail("replay-binary-did-not-start", e); } } let v = eval(ctx, &c); inproc::binary_stop(); let _ = std::env::set_current_dir("/"); let _ = std::fs::remove_dir_all(root); v }
         Err(e) => Verdict::fail("replay-unreadable", e.to_string()),
     }
 }
